@@ -135,7 +135,7 @@ def build_driver(work, defs, tags="verif", race=False):
     return binp, defs_path
 
 
-EV_OF_OP = {"size": "Size", "encode": "Encode", "encsweep": "Encode", "decode": "Decode", "gc": "GC", "deep": "Deep", "reject": "Reject", "legacy": "Legacy", "allocs": "Allocs"}
+EV_OF_OP = {"size": "Size", "encode": "Encode", "encsweep": "Encode", "decode": "Decode", "gc": "GC", "deep": "Deep", "reject": "Reject", "legacy": "Legacy", "allocs": "Allocs", "par": "Par"}
 
 
 def run_driver(work, binp, defs_path, scenarios, env=None, maxstack=0, step_timeout=None):
@@ -151,6 +151,7 @@ def run_driver(work, binp, defs_path, scenarios, env=None, maxstack=0, step_time
     records = []
     restarts = 0
     e = dict(os.environ)
+    e["GORACE"] = "halt_on_error=1 exitcode=66"
     if env:
         e.update(env)
     while skip < len(scenarios):
@@ -197,7 +198,7 @@ def run_driver(work, binp, defs_path, scenarios, env=None, maxstack=0, step_time
         si, k = pending["scen"], pending["step"]
         sc = scenarios[si]
         st = sc["steps"][k]
-        outcome = "timeout" if p.returncode == 3 else "crash"
+        outcome = "timeout" if p.returncode == 3 else ("race" if p.returncode == 66 else "crash")
         rec = {"scen": si, "sid": sc["sid"], "step": k, "ev": EV_OF_OP.get(st.get("op"), "Unknown"),
                "ty": st.get("ty", ""), "v": st.get("v", 0), "buflen": 0, "orig": st.get("orig", -1),
                "in": st.get("in", []), "pattern": st.get("pattern", ""), "entry": st.get("entry", ""), "arg": st.get("arg", "ptr"), "class": st.get("class", ""), "rep": 0, "call": st.get("call", ""), "arg2": 0, "calls": st.get("calls", 0), "d": 1 << 30, "levels": 1 << 30, "len": 0,
